@@ -81,27 +81,27 @@ end
 
 /-! ### `Convert` and the conversions `GetConversion*` return -/
 
-/-- what the placeholder-free theorems assume of a (value, target type) pair -/
-structure RegularPair (E : Env) (v : Value) (want : Ty) : Prop where
+/-- what the placeholder-free theorems assume of a (value, target type) pair: a
+well-formed value and a well-formed target type without DynamicPseudoType -/
+structure RegularPair (v : Value) (want : Ty) : Prop where
   wt : Value.wt v = true
   wfT : want.wf = true
   noDyn : want.hasDyn = false
-  reg : regular E v.ty want = true
 
-theorem RegularPair.conds {E : Env} {v : Value} {want : Ty} (h : RegularPair E v want) : Conds E v.ty want v := by
+theorem RegularPair.conds {v : Value} {want : Ty} (h : RegularPair v want) : Conds v.ty want v := by
   have hw := h.wt
   simp only [Value.wt, Bool.and_eq_true, Bool.not_eq_true'] at hw
-  exact ⟨rfl, hw.1.1, h.wfT, hw.1.2, h.noDyn, h.reg, hw.2⟩
+  exact ⟨rfl, hw.1.1, h.wfT, hw.1.2, h.noDyn, hw.2⟩
 
 /-- a conversion obtained from `getConversion` for the value's type -/
 theorem apply_ty {E : Env} (hU : UnifyLaws E) {v r : Value} {want : Ty} {uns : Bool} {p : Plan} {fuel : Nat}
-    (hp : RegularPair E v want) (hg : getConv E v.ty want uns = some p) (h : apply E fuel p v = .ok r) :
+    (hp : RegularPair v want) (hg : getConv E v.ty want uns = some p) (h : apply E fuel p v = .ok r) :
     r.ty = want.stripOpt := by
   obtain ⟨c, hc, rfl⟩ := Option.map_eq_some_iff.mp hg
   exact recOK_apply hU fuel v.ty want uns c v r hc hp.conds h
 
 theorem convert_ty {E : Env} (hU : UnifyLaws E) {v r : Value} {want : Ty} {fuel : Nat}
-    (hp : RegularPair E v want) (h : convert E fuel v want = .ok r) : r.ty = want.stripOpt := by
+    (hp : RegularPair v want) (h : convert E fuel v want = .ok r) : r.ty = want.stripOpt := by
   unfold convert convertWith at h
   split at h
   · rename_i he
@@ -118,7 +118,7 @@ theorem convert_identity (E : Env) (fuel : Nat) (v : Value) (want : Ty)
   simp [convert, convertWith, h]
 
 theorem convert_idempotent {E : Env} (hU : UnifyLaws E) {v r : Value} {want : Ty} {fuel fuel' : Nat}
-    (hp : RegularPair E v want) (h : convert E fuel v want = .ok r) : convert E fuel' r want = .ok r := by
+    (hp : RegularPair v want) (h : convert E fuel v want = .ok r) : convert E fuel' r want = .ok r := by
   apply convert_identity
   rw [convert_ty hU hp h]
   exact equals_self (wf_stripOpt want hp.wfT)
